@@ -17,6 +17,53 @@ CHECKS = {
         technique="bounded model checking of the compiled code (Kani 0.68 -> CBMC 6.11 -> CaDiCaL), symbolic a,b,carry-in"),
 }
 
+KANI = "bounded model checking of the compiled code (Kani 0.68 -> CBMC 6.11 -> CaDiCaL), "
+CHECKS.update({
+    "C10": dict(
+        category="model_checking",
+        text="Inductive frame lemmas decided by the solver: one Bus::write / Bus::read / input setter from a fully arbitrary bus "
+             "(240 symbolic RAM bytes, all registers, arbitrary board) with symbolic address and byte, against a reference address "
+             "map; pairs of writes with both addresses symbolic. No bound on the single operations; histories of any length follow "
+             "by induction, which is what read-after-write over all sequences needs.",
+        design_ref="DESIGN.md section 3 / C10",
+        note="Trusted: Kani/CBMC, the reference map in h_bus.rs (written from the doc table). Value law of 0xF2 is C14's.",
+        technique=KANI + "one-operation inductive frame lemmas from an arbitrary state"),
+    "C14": dict(
+        category="model_checking",
+        text="Every board operation (setters with all 2^32 f32 patterns, DAC/control writes through Bus::write with all bytes) is run "
+             "once from an arbitrary board satisfying a representation invariant and compared with a reference model (clamp, DAC law, "
+             "comparator rule, UIO direction rule, edge-interrupt rule, fan period law); the invariant is proved for Board::new() and "
+             "preserved by each operation, so all interleavings are covered by induction.",
+        design_ref="DESIGN.md section 3 / C14",
+        note="Trusted: Kani/CBMC incl. its IEEE-754 float encoding; reference model in h_board.rs. Resets are outside C14's operation list.",
+        technique=KANI + "inductive one-operation lemmas under a representation invariant, f32 arguments as symbolic bit patterns"),
+    "C07": dict(
+        category="model_checking",
+        text="cpu_reset, master_reset and load are executed symbolically from a fully arbitrary Machine (all hidden fields through "
+             "hooks) and every field is compared with its documented post-value or its pre-value; load additionally with a symbolic "
+             "image (<= 4 bytes quick, <= 16 thorough) compared field-by-field with a new machine given the same program.",
+        design_ref="DESIGN.md section 3 / C07",
+        note="Bound: image length; one-line ByteCode. Cycle-for-cycle equality is derived from hidden-state equality + determinism of the edge.",
+        technique=KANI + "postconditions from an arbitrary pre-state (histories abstracted by the arbitrary state)"),
+    "C05": dict(
+        category="model_checking",
+        text="One-edge lemmas from every state satisfying the invariant: the state after an edge equals the supervision rule "
+             "(reference forbidden-band formula, symbolic SP/PC/limits), registers change only by the pending commit, the invariant "
+             "'Running or Stopped implies legal SP and PC' is inductive over edge/continue/reset/key, a halted edge is the identity on "
+             "every field, only continue leaves Stopped.",
+        design_ref="DESIGN.md section 3 / C05",
+        note="Assumes limits are not changed while running (raw setters outside the property).",
+        technique=KANI + "inductive one-edge lemmas from a fully symbolic machine state"),
+    "C13": dict(
+        category="model_checking",
+        text="Each public mutator (clock edge, key interrupt, continue, both resets, four input setters, nine board setters with all "
+             "f32 bit patterns, Bus::read/write with symbolic address) is run once from every state satisfying Inv with Kani's "
+             "overflow/bounds/unwrap/unreachable checks as the assertion; Inv is preserved, so no interleaving of any length can panic.",
+        design_ref="DESIGN.md section 3 / C13",
+        note="Assumes stack size != NotSet (established by load). Dev-profile semantics (overflow checks on) - stricter than release.",
+        technique=KANI + "panic-freedom of each call from an arbitrary invariant state"),
+})
+
 NOT_APPLICABLE = {
     "C12": "RunnerConfig::run begins with AsmParser::parse + Translator::compile (pest runtime, HashMap/SipHash): not "
            "encodable by Kani/CBMC within reach (concrete one-line program, max_cycles<=3: >7 min, unfinished); the CLI "
